@@ -1,42 +1,47 @@
 #!/bin/sh
 # tools/verify_seeded.sh [scratch worktree]  -- regression over every kept seeded change:
 #   demo passes on the clean tree, fails with the patch; each check named in meta.detected_by prints a VIOLATION with the patch
-#   applied to /repo (applied and undone one at a time).  Also runs seeded/harmless/*.diff: no check may raise an alarm.
-# Needs /repo exclusively (do not run other checks meanwhile).  Prints one line per change; exit 1 if anything is off.
-wt="${1:-/root/mut/wt-verify}"
-[ -d "$wt" ] || git -C /repo worktree add -q --detach "$wt" HEAD || exit 2
-git -C "$wt" checkout -q --detach "$(git -C /repo rev-parse HEAD)" || exit 2
+#   applied to the mesa checkout (applied and undone one at a time).  Also runs seeded/harmless/*.diff: no check may raise an alarm.
+# The mesa checkout is $MESA_REPO (default /repo) and must be a git checkout used by nobody else meanwhile; the framework is the
+# directory this script lives in (so it also runs inside a `vp run --with-repo` snapshot: MESA_REPO=$VP_RUN_REPO).
+# Prints one line per change; exit 1 if anything is off.  ONLY=<prefix> restricts to seeded ids with that prefix.
+REPO="${MESA_REPO:-/repo}"; export MESA_REPO="$REPO"
+cd "$(dirname "$0")/.." || exit 2
+wt="${1:-/root/mut/wt-verify-$$}"
+rm -rf "$wt"; mkdir -p "$wt" && git -C "$REPO" archive HEAD | tar -x -C "$wt" || exit 2
+( cd "$wt" && git init -q && git add -A >/dev/null 2>&1 && git -c user.email=v@v -c user.name=v commit -qm base ) || exit 2
 bad=0
-cd /verif
-for d in seeded/*/; do
+for d in seeded/${ONLY:-}*/; do
   id=$(basename "$d"); [ -f "$d/meta.json" ] && [ -f "$d/patch.diff" ] || continue
   checks=$(/venv/bin/python -c "import json,sys; print(' '.join(json.load(open('$d/meta.json')).get('detected_by', [])))")
   [ -n "$checks" ] || continue
   git -C "$wt" checkout -q -- . ; cp "$d/demo.py" "$wt/_demo.py"
-  ( cd "$wt" && timeout 300 /venv/bin/python _demo.py >/dev/null 2>&1 ); dc=$?
+  ( cd "$wt" && MESA_WT="$wt" timeout 300 /venv/bin/python _demo.py >/dev/null 2>&1 ); dc=$?
   if ! git -C "$wt" apply "$PWD/$d/patch.diff" 2>/dev/null; then echo "$id: PATCH-DOES-NOT-APPLY"; bad=1; rm -f "$wt/_demo.py"; continue; fi
-  ( cd "$wt" && timeout 300 /venv/bin/python _demo.py >/dev/null 2>&1 ); dm=$?
+  ( cd "$wt" && MESA_WT="$wt" timeout 300 /venv/bin/python _demo.py >/dev/null 2>&1 ); dm=$?
   rm -f "$wt/_demo.py"; git -C "$wt" checkout -q -- .
-  git -C /repo apply "$PWD/$d/patch.diff" || { echo "$id: cannot apply to /repo"; bad=1; continue; }
+  git -C "$REPO" apply "$PWD/$d/patch.diff" || { echo "$id: cannot apply to $REPO"; bad=1; continue; }
   res=""
   for c in $checks; do
     if timeout 1500 ./check "$c" --tier quick 2>/dev/null | grep -q "^VIOLATION property=$c"; then res="$res $c:caught"; else res="$res $c:MISSED"; bad=1; fi
   done
-  git -C /repo checkout -q -- .
+  git -C "$REPO" checkout -q -- .
   [ "$dc" = 0 ] && [ "$dm" != 0 ] || { res="$res demo(clean=$dc,mutated=$dm)!"; bad=1; }
   echo "$id:$res"
 done
 for p in seeded/harmless/*.diff; do
   [ -f "$p" ] || continue
+  [ -z "${ONLY:-}" ] || continue
   checks=$(sed -n 's/^# checks: //p' "$p")
-  git -C /repo apply "$PWD/$p" || { echo "$(basename $p): cannot apply"; bad=1; continue; }
+  git -C "$REPO" apply "$PWD/$p" || { echo "$(basename $p): cannot apply"; bad=1; continue; }
   res=""
   for c in $checks; do
     out=$(timeout 1500 ./check "$c" --tier quick 2>/dev/null); code=$?
     if [ $code -eq 0 ] && ! echo "$out" | grep -q "^VIOLATION"; then res="$res $c:quiet"; else res="$res $c:FALSE-ALARM(exit $code)"; bad=1; fi
   done
-  git -C /repo checkout -q -- .
+  git -C "$REPO" checkout -q -- .
   echo "harmless $(basename $p):$res"
 done
-git -C /repo status --short --untracked-files=no
+git -C "$REPO" status --short --untracked-files=no
+rm -rf "$wt"
 exit $bad
